@@ -149,14 +149,14 @@ theorem ctl_inv (fs ch app : Int) (s0 : EncSt) (hc : encCreate fs ch app true = 
     can (true of the code since the repair 34e4f763 of the multi-frame `force_channels = 1` store).
     Both views of an encode call: the monitored adopt view of `ctl_inv`, and the `step` model. -/
 theorem encode_never_changes_settings :
-    (∀ (s : EncSt) (f b ret : Int) (o : EncObs), encodeContract s f b ret o = none →
+    (∀ (s : EncSt) (f b ret : Int) (o : EncObs) (fmt : Nat), encodeContract s f b ret o fmt = none →
         settingsOf (encAdopt s o) = settingsOf s) ∧
     (∀ (s : DSt) (o : Oracle) (f b : Int),
         let s' := (step s o f b).1
         s'.fs = s.fs ∧ s'.channels = s.channels ∧ s'.application = s.application ∧ s'.userBitrate = s.userBitrate ∧
         s'.useVbr = s.useVbr ∧ s'.forceChannels = s.forceChannels ∧ s'.maxBandwidth = s.maxBandwidth ∧
         s'.userBandwidth = s.userBandwidth ∧ s'.userForcedMode = s.userForcedMode ∧ s'.lfe = s.lfe) :=
-  ⟨fun _ _ _ _ _ h => encAdopt_settings h, step_settings⟩
+  ⟨fun _ _ _ _ _ _ h => encAdopt_settings h, step_settings⟩
 
 /-- **ctl_inv** (decoder): gain, complexity and phase-inversion settings stay in range under any
     request and any decode call. -/
@@ -456,7 +456,7 @@ def exObs : EncObs :=
     forceChannels := -1000, maxInternalSampleRate := 16000, useCBR := 0, silkUseDTX := 0, prevMode := 1002,
     silkInDtx := 0, noActivityQ1 := 0, streamChannels := 2, mode := 1002, prevChannels := 2, toMono := 0,
     celtEnergyMask := false }
-example : encRunOk exEnc [.ctl (.set .complexity 5), .ctl (.set .complexity 11), .encode 960 1276 120 exObs] := by
+example : encRunOk exEnc [.ctl (.set .complexity 5), .ctl (.set .complexity 11), .encode 960 1276 120 exObs 2] := by
   refine ⟨trivial, trivial, ?_, trivial⟩
   decide +kernel
 example : OracleOk exOracle := ⟨by decide, by decide, by decide, by decide⟩
